@@ -97,7 +97,34 @@ def r17_1(ctx):
             gs = [norm(g_) for g_, _p in _guards_of(sn_.node, r)]
             ctx.violated("R17.1", sniff.where(r), f"the sniffer answers `{norm(r.value)}` without looking at the content" + (f" when `{gs[0][:70]}`" if gs else "") + ": a BGZF file under another name (the output of `sort --bgzip --outgaf x.gaf`) is opened as text, a plain file named *.gz as BGZF", key_of(sniff, f"sniff-by-name:{norm(r.value)}:{gs[0][:40] if gs else ''}"))
     ok = reads_magic and len(opens) == 1 and norm(opens[0].args[0]) == p0 and const_value(opens[0].args[1]) == "rb" if opens and len(opens[0].args) > 1 else False
-    ctx.check(ok, "R17.1", sniff.where(), "compression is detected from the content: the first two bytes of the file are compared with the gzip magic number (a BGZF file under any name is recognised, a plain file named *.gz is not misread)", key_of(sniff, f"sniff:{src[:120]}"))
+    if not ok and not opens:
+        # the bytes are read through a helper (a context manager that opens and closes, a `read_magic(path, n)`): judged only
+        # when the helper chain can be followed to one binary open of the same path and a read of two bytes
+        from ..core import tail_inlined
+
+        chain, seen_ = [sniff], set()
+        for _ in range(3):
+            for fn_ in list(chain):
+                for c_ in walk_own(fn_.node):
+                    if isinstance(c_, ast.Call):
+                        cal_ = repo.resolve_call(fn_, c_)
+                        if cal_ is not None and id(cal_.node) not in seen_ and cal_.module.name.startswith("gaftools"):
+                            seen_.add(id(cal_.node))
+                            chain.append(cal_)
+        opens_ = [c_ for fn_ in chain for c_ in walk_own(fn_.node) if isinstance(c_, ast.Call) and norm(c_.func) == "open"]
+        reads_ = [c_ for fn_ in chain for c_ in walk_own(fn_.node) if isinstance(c_, ast.Call) and isinstance(c_.func, ast.Attribute) and c_.func.attr == "read"]
+        magic_ = [x_ for fn_ in chain for x_ in walk_own(fn_.node) if isinstance(x_, ast.Constant) and x_.value == b"\x1f\x8b"]
+        modes_ = {const_value(a_, None) for fn_ in chain for c_ in walk_own(fn_.node) if isinstance(c_, ast.Call) for a_ in c_.args if isinstance(const_value(a_, None), str) and const_value(a_, None) in ("rb", "r", "rt", "br")}
+        sizes_ = {const_value(a_, None) for fn_ in chain for c_ in walk_own(fn_.node) if isinstance(c_, ast.Call) for a_ in c_.args if isinstance(const_value(a_, None), int) and not isinstance(const_value(a_, None), bool)}
+        if len(opens_) == 1 and len(reads_) == 1 and magic_ and modes_ <= {"rb", "br"} and modes_ and sizes_ == {2}:
+            ctx.holds("R17.1", sniff.where(), "compression is detected from the content: two bytes read in binary mode through a helper are compared with the gzip magic number")
+            ok = None
+        elif len(chain) == 1 or not (opens_ or reads_):
+            pass  # no helper reads the file either: the sniffer does not look at the content (reported below)
+        else:
+            raise AnalysisError("R17.1", sniff.where(), "the sniffer reads the file through helpers this rule cannot follow to one binary open and a two-byte read")
+    if ok is not None:
+        ctx.check(ok, "R17.1", sniff.where(), "compression is detected from the content: the first two bytes of the file are compared with the gzip magic number (a BGZF file under any name is recognised, a plain file named *.gz is not misread)", key_of(sniff, f"sniff:{src[:120]}"))
     # every opener of a GAF path
     n = 0
     gaf_params = {"gaf", "gaf_path", "gaf_file", "filename"}
@@ -135,6 +162,32 @@ def r17_1(ctx):
                 t = c03.sniff_test(f, t)
                 if isinstance(t, ast.Call) and same_func(ctx.repo.resolve_call(f, t), sniff) and norm(t.args[0]) == path:
                     sn.append((t, pol))
+            if not sn:
+                # the test is a flag handed in by the caller (`_open_handle(filename, gzipped)`): followed to the call sites
+                flags = [t_ for t_, _p in g if isinstance(t_, ast.Name) and t_.id in f.params] + [t_.operand for t_, _p in g if isinstance(t_, ast.UnaryOp) and isinstance(t_.operand, ast.Name) and t_.operand.id in f.params]
+                if flags:
+                    fl = flags[0].id
+                    sites_ok, n_sites = True, 0
+                    for cf, call_ in repo.callers_of(f):
+                        cf2 = cf
+                        n_sites += 1
+                        off_ = 1 if f.params and f.params[0] in ("self", "cls") else 0
+                        def _arg(pn):
+                            i_ = f.params.index(pn) - off_
+                            return call_.args[i_] if 0 <= i_ < len(call_.args) else next((k_.value for k_ in call_.keywords if k_.arg == pn), None)
+                        fa, pa_ = _arg(fl), _arg(path)
+                        if isinstance(fa, ast.Name):
+                            d_ = [a_.value for a_ in walk_own(cf2.node) if isinstance(a_, ast.Assign) and len(a_.targets) == 1 and norm(a_.targets[0]) == fa.id]
+                            fa = d_[0] if len(d_) == 1 else fa
+                        if not (isinstance(fa, ast.Call) and same_func(repo.resolve_call(cf2, fa), sniff) and pa_ is not None and fa.args and norm(fa.args[0]) == norm(pa_)):
+                            sites_ok = False
+                    if sites_ok and n_sites:
+                        pol_ = next(p_ for t_, p_ in g if (isinstance(t_, ast.Name) and t_.id == fl) or (isinstance(t_, ast.UnaryOp) and isinstance(t_.operand, ast.Name) and t_.operand.id == fl))
+                        if any(isinstance(t_, ast.UnaryOp) and isinstance(t_.operand, ast.Name) and t_.operand.id == fl for t_, _p in g):
+                            pol_ = not pol_
+                        sn.append((None, pol_))
+                    else:
+                        raise AnalysisError("R17.1", f.where(c), f"`{norm(c)}` is chosen by the flag `{fl}` the caller hands in: that every caller computes it by sniffing the same path is not established")
             if not sn:
                 ctx.violated("R17.1", f.where(c), f"`{norm(c)}` opens the GAF without sniffing its compression: a compressed (or, for a compressed-only opener, a plain) input is misread", key_of(f, f"unsniffed-open:{norm(c)}"))
                 continue
@@ -535,6 +588,9 @@ def r17_3(ctx):
 
     rg0 = repo.func("gaftools.gfa", "GFA.read_graph", "R17.3")
     rg = tail_inlined(repo, rg0, keep=lambda c: c.name in ("add_node", "add_edge"))
+    from ..core import while_next_loops
+
+    rg = while_next_loops(rg)  # `it = iter(h); line = next(it, None); while line is not None: ...` is `for line in h:`
     ctx.analysed_func(rg)
     p0 = rg.params[1]
     # private helpers that only the reader (or such a helper) calls belong to the reader
@@ -565,6 +621,18 @@ def r17_3(ctx):
         gz_, pl_ = arms.get(f"{p0}.endswith('.gz')"), arms.get(f"{p0}.endswith('.gfa')")
         ok = gz_ == [f"gzip.open({p0}, 'rt')"] and pl_ in ([f"open({p0}, 'r')"], [f"open({p0}, 'rt')"], [f"open({p0})"]) and any(isinstance(s, ast.Raise) for s in final)
         detail = {"gz": gz_ if gz_ is not None else b1, "plain": pl_ if pl_ is not None else b2}
+        if not ok and gz_ is not None and pl_ is not None and len(gz_) == 2 and len(pl_) == 2:
+            # the arms only choose (opener, mode); one call `opener(path, mode)` opens the file afterwards
+            def _names(arm):
+                return [norm(t_) for s_ in arm for t_ in s_.targets] if all(isinstance(s_, ast.Assign) and len(s_.targets) == 1 for s_ in arm) else None
+
+            arm_gz = c.body if t1 == f"{p0}.endswith('.gz')" else (els.body if els else [])
+            nm_ = _names([s_ for s_ in arm_gz if isinstance(s_, ast.Assign)])
+            calls_ = [x_ for x_ in walk_own(rg.node) if isinstance(x_, ast.Call) and nm_ and len(nm_) == 2 and norm(x_.func) == nm_[0] and [norm(a_) for a_ in x_.args] == [p0, nm_[1]]]
+            if nm_ and len(calls_) == 1 and gz_ == ["gzip.open", "'rt'"] and pl_ in (["open", "'r'"], ["open", "'rt'"]) and any(isinstance(s, ast.Raise) for s in final):
+                ok = True
+            elif nm_ and calls_:
+                raise AnalysisError("R17.3", rg.where(), f"the reader chooses its opener and mode in the suffix arms ({gz_}, {pl_}): not one of the pairs this rule knows")
     ctx.check(ok, "R17.3", rg.where(), "the graph reader opens *.gz with gzip.open(..., 'rt') and *.gfa with open(..., 'r') - the same text lines either way - and rejects any other name", key_of(rg, f"graph-opener:{detail}"), **detail)
     # who opens graph files elsewhere
     others = []
